@@ -123,7 +123,7 @@ func tagsOf(ctx context.Context, v orc.OCIView, last string) ([]string, error) {
 
 // compareViews is the differential oracle: the live store and a reopened view must
 // answer every observation identically.
-func compareViews(ctx context.Context, live, view orc.OCIView, d *gen.DAG, dir, last, viewName, when string) *vt.Fail {
+func compareViews(ctx context.Context, live, view orc.OCIView, d *gen.DAG, dir, last, viewName, when string, gcThenDelete bool) *vt.Fail {
 	for _, l := range []string{"", last} {
 		a, err := tagsOf(ctx, live, l)
 		if err != nil {
@@ -186,6 +186,10 @@ func compareViews(ctx context.Context, live, view orc.OCIView, d *gen.DAG, dir, 
 			return vt.Failf("C08/predecessors-error", "%s: Predecessors(node %d): %v / %v", when, id, err1, err2)
 		}
 		if gen.TripleSetString(p1) != gen.TripleSetString(p2) {
+			if onlyUnindexedMissing(ctx, live, d, dir, p1, p2) && !gcThenDelete {
+				// not the listed finding (that one needs a GC and a later Delete)
+				return vt.Failf("C08/stored-manifest-missing-from-index", "%s: Predecessors(node %d %s): live %s, %s %s (the omitted manifests are stored but no index.json entry reaches them, and no GC + Delete preceded)", when, id, n.Spec.Kind, gen.TripleSetString(p1), viewName, gen.TripleSetString(p2))
+			}
 			if onlyUnindexedMissing(ctx, live, d, dir, p1, p2) {
 				return vt.Failf("C08/reopen-omits-unindexed-manifest", "%s: Predecessors(node %d %s): live %s, %s %s (the omitted manifests are stored but not reachable from any index.json entry)", when, id, n.Spec.Kind, gen.TripleSetString(p1), viewName, gen.TripleSetString(p2))
 			}
@@ -264,10 +268,17 @@ func runCase(c Case) (res vt.Result, fail *vt.Fail) {
 	}
 
 	annObj := map[int]map[string]string{}
+	sawGC, gcThenDelete := false, false
 	ops := append([]Op(nil), c.Ops...)
 	for i := 0; i < len(ops); i++ {
 		op := ops[i]
 		when := fmt.Sprintf("at step %d (%s n=%d ref=%q)", i, op.Op, op.N, op.Ref)
+		switch op.Op {
+		case "gc":
+			sawGC = true
+		case "delete":
+			gcThenDelete = gcThenDelete || sawGC
+		}
 		switch op.Op {
 		case "push", "pushfault":
 			if stored[op.N] {
@@ -504,7 +515,7 @@ func runCase(c Case) (res vt.Result, fail *vt.Fail) {
 				return res, vt.Failf("C08/reopen-failed", "%s: oci.New: %v", when, err)
 			}
 			s2.AutoSaveIndex, s2.AutoGC = c.AutoSave, c.AutoGC
-			if f := compareViews(ctx, s, s2, d, dir, op.Last, "oci.New", when); f != nil {
+			if f := compareViews(ctx, s, s2, d, dir, op.Last, "oci.New", when, gcThenDelete); f != nil {
 				res.Classes = keys(classes)
 				return res, f
 			}
@@ -520,7 +531,7 @@ func runCase(c Case) (res vt.Result, fail *vt.Fail) {
 			if err != nil {
 				return res, vt.Failf("C08/reopen-failed", "%s: NewFromFS: %v", when, err)
 			}
-			if f := compareViews(ctx, s, fsv, d, dir, op.Last, "NewFromFS", when); f != nil {
+			if f := compareViews(ctx, s, fsv, d, dir, op.Last, "NewFromFS", when, gcThenDelete); f != nil {
 				res.Classes = keys(classes)
 				return res, f
 			}
@@ -545,7 +556,7 @@ func runCase(c Case) (res vt.Result, fail *vt.Fail) {
 			if err != nil {
 				return res, vt.Failf("C08/reopen-failed", "%s: NewFromTar(%s): %v", when, op.Fmt, err)
 			}
-			if f := compareViews(ctx, s, tv, d, dir, op.Last, "NewFromTar/"+op.Fmt, when); f != nil {
+			if f := compareViews(ctx, s, tv, d, dir, op.Last, "NewFromTar/"+op.Fmt, when, gcThenDelete); f != nil {
 				res.Classes = keys(classes)
 				return res, f
 			}
